@@ -219,6 +219,14 @@ func newMeta() *block.MetaBlock {
 	}
 }
 
+// chainEpoch is the epoch of the last committed epoch-start block according to the history.
+func (r *run) chainEpoch() uint32 {
+	if r.mPending && r.mEpoch > 0 {
+		return r.mEpoch - 1
+	}
+	return r.mEpoch
+}
+
 func (r *run) observe() obs {
 	return obs{epoch: r.trig.Epoch(), isStart: r.trig.IsEpochStart(), start: r.trig.EpochStartRound()}
 }
@@ -366,6 +374,7 @@ func execC34(c *simkit.Ctx) bool {
 		before := r.observe()
 		wasPending := r.forcePending
 		prevStart := r.mStart
+		prevEpoch := r.mEpoch // the epoch of the chain history before this step
 		desc := ""
 		switch st.Op {
 		case "Update":
@@ -495,31 +504,39 @@ func execC34(c *simkit.Ctx) bool {
 		case "Revert":
 			mode := st.Int(0, 0)
 			switch {
-			case mode == 0 && !before.isStart && before.epoch > r.epoch0 && r.lastStart != nil && r.lastStart.Epoch == before.epoch && r.parents[before.epoch] != nil:
-				// the epoch-start block itself is rolled back: the new head is its parent
-				if err := r.trig.RevertStateToBlock(r.parents[before.epoch]); err != nil {
+			case mode == 0 && r.lastStart != nil && r.lastStart.Epoch > r.epoch0 && r.lastStart.Epoch == r.chainEpoch() && r.parents[r.lastStart.Epoch] != nil:
+				// the last committed epoch-start block itself is rolled back: the new head is its parent (the trigger may
+				// already have fired for the following epoch without that block being committed)
+				ce := r.lastStart.Epoch
+				if r.mPending {
+					c.Probe("revert_behind_start_block_while_next_start_pending")
+				}
+				if err := r.trig.RevertStateToBlock(r.parents[ce]); err != nil {
 					c.Probe("revert_returned_error")
 					desc = "start-block-rollback-failed"
 					break
 				}
 				c.Probe("revert_of_epoch_start_block")
-				if k := r.keyBefore[before.epoch]; k != nil {
+				if k := r.keyBefore[ce]; k != nil {
 					r.bootKey = k
 				}
-				delete(r.keyBefore, before.epoch)
-				delete(r.startBlocks, before.epoch)
-				delete(r.parents, before.epoch)
-				r.lastStart = r.startBlocks[before.epoch-1]
+				delete(r.keyBefore, ce)
+				delete(r.startBlocks, ce)
+				delete(r.parents, ce)
+				r.lastStart = r.startBlocks[ce-1]
 				if r.lastStart != nil && r.parents[r.lastStart.Epoch] == nil && r.lastStart.Epoch != r.epoch0 {
 					r.lastStart = nil
 				}
-				r.mEpoch, r.mStart, r.mPending = before.epoch-1, r.round0, false
-				if prev := r.startBlocks[before.epoch-1]; prev != nil {
+				r.mEpoch, r.mStart, r.mPending = ce-1, r.round0, false
+				if prev := r.startBlocks[ce-1]; prev != nil {
 					r.mStart = prev.Round
 				}
 				desc = "start-block-rolled-back"
 			case mode == 1 && r.lastStart != nil && r.lastStart.Epoch > r.epoch0:
 				// the block after the epoch-start block is rolled back: the new head is the epoch-start block
+				if r.mPending {
+					c.Probe("revert_to_start_block_while_next_start_pending")
+				}
 				if err := r.trig.RevertStateToBlock(r.lastStart); err != nil {
 					c.Probe("revert_returned_error")
 				} else {
@@ -575,6 +592,9 @@ func execC34(c *simkit.Ctx) bool {
 			r.forcePending = false
 			if after.epoch != before.epoch+1 {
 				c.Violate("C34", "epoch-jump", st.Op, "%s: epoch went from %d to %d in one epoch start", st.Op, before.epoch, after.epoch)
+			} else if st.Op == "Update" && after.epoch != prevEpoch+1 {
+				c.Violate("C34", "epoch-jump", "Update", "Update(round=%d) started epoch %d, but the chain history is in epoch %d (last operations: reverts/restarts put the trigger back there): the epoch must increase by exactly one per epoch start",
+					r.clock, after.epoch, prevEpoch)
 			} else if st.Op == "Update" {
 				// the start round of the new epoch as the trigger itself decided it (before any epoch-start block moved it)
 				newStart := r.clock
